@@ -631,4 +631,61 @@ def check_C17(cx):
                             "distinct_nontrivial = distinct Wire.tla transitions replayed")
 
 
-CHECKS = {"C17": check_C17, "C04": check_C04, "C08": check_C08, "C13": check_C13, "C19": check_C19, "C03": check_C03, "C07": check_C07}
+# ---------------------------------------------------------------- Carrier / C14
+def check_C14(cx):
+    cx.module = "carrier"
+    cx.build()
+    quick = cx.tier == "quick"
+    inv = ["C14_ReadFromExact", "C14_ByteReaderExact"]
+    ns = [0, 1, 1023, 1024] if quick else [0, 1, 2, 1023, 1024]
+    consts = {"Ns": set(ns), "MaxItems": 3, "FixByteReader": TREE.get("FixByteReader", False)}
+    res = generic_mc(cx, "MCcarrier", "Carrier", consts, inv, what="C14 ReadFrom / ByteReader over all reader scripts of <= 3 results from %s x {nil, EOF, error}" % ns)
+    spec_violation = res["violated"]
+    # every script of the bounded space on the real code (the space is small enough to run completely)
+    import itertools
+    items = [{"n": n, "err": e} for n in ns for e in ("nil", "eof", "other")]
+    cases = []
+    k = 0
+    for ln in range(0, 4):
+        for sc in itertools.product(items, repeat=ln):
+            k += 1
+            if quick and ln == 3 and cx.rnd.randrange(4) != 0:
+                continue
+            for asyn in (False, True):
+                if asyn and (quick and k % 3 != 0):
+                    continue
+                cases.append({"id": "rf%d%s" % (k, "a" if asyn else "s"), "op": "readfrom", "script": list(sc), "async": asyn, "seed": cx.rnd.randrange(1, 1 << 30)})
+            if all(i["n"] <= 1 for i in sc):
+                cases.append({"id": "br%d" % k, "op": "bytereader", "script": list(sc), "seed": cx.rnd.randrange(1, 1 << 30)})
+    sizes = [0, 1, 1023, 1024, 1025, 2048, 4097, 65537]
+    for kind in ("bytes", "vec", "buffer", "writerto", "reader", "strreader", "string", "int", "struct", "nil"):
+        for sz in sizes:
+            for asyn in (False, True):
+                cases.append({"id": "h-%s-%d-%s" % (kind, sz, asyn), "op": "head", "kind": kind, "size": sz, "parts": 1 + cx.rnd.randrange(3),
+                              "async": asyn, "seed": cx.rnd.randrange(1, 1 << 30)})
+    for sz in sizes + [100, 700, 3000]:
+        cases.append({"id": "helpers-%d" % sz, "op": "helpers", "size": sz, "seed": cx.rnd.randrange(1, 1 << 30)})
+    rs = run_driver(cx.driver, "carrier", cases, cx.wd, tag="c")
+    cx.absorb(rs, cases)
+    traced = [r for r in rs if r.get("events")]
+    tconsts = {"Ns": set(ns), "MaxItems": 3, "FixByteReader": TREE.get("FixByteReader", False)}
+    for chunk in range(0, len(traced), 500):
+        validate(cx, "TC%d" % chunk, "TraceCarrier", tconsts, traced[chunk:chunk + 500], [], {"op": "reset"})
+    cx.edges_walked = len(rs)
+    if traced:
+        cx.samples.append(traced[len(traced) // 2]["events"][0])
+    if spec_violation and not cx.fails:
+        raise Inconclusive("SPEC-MISMATCH: TLC reports %s on Carrier.tla but no execution of the real code fails the oracle" % spec_violation)
+    if TREE.get("FixByteReader"):
+        c0 = dict(consts)
+        c0["FixByteReader"] = False
+        r0 = generic_mc(cx, "MCunfixed", "Carrier", c0, inv, what="self-test: the unrepaired ByteReader must violate C14_ByteReaderExact")
+        cx.selftests["unfixed_spec_violates"] = r0["violated"]
+        if not r0["violated"]:
+            raise Inconclusive("self-test failed: the unrepaired Carrier specification no longer violates C14")
+    cx.assume.append("byte equality of transmitted/converted content is the driver's comparison; TLC decides chunking, counts and errors")
+    return finish(cx, rule="cases = every reader script of the bounded space (ReadFrom sync/async, ByteReader), every head-handler carrier type x size x channel mode, "
+                            "conversion helpers over fragmenting readers; distinct_nontrivial = cases executed on the real code")
+
+
+CHECKS = {"C14": check_C14, "C17": check_C17, "C04": check_C04, "C08": check_C08, "C13": check_C13, "C19": check_C19, "C03": check_C03, "C07": check_C07}
